@@ -2,6 +2,7 @@ import ComposeVerif.Props.C16Load
 import ComposeVerif.Model.EnvLayersSites
 import ComposeVerif.Model.Pipeline
 import ComposeVerif.Lemmas.C11KV
+import ComposeVerif.Lemmas.C11Norm
 /-!
 # C16 — the composed clause (round 6)
 
@@ -506,6 +507,119 @@ theorem pipeline_normalize_map (env : List (String × String)) (kvs : List (Key 
   rw [normalize_pairs_tree]
 
 end PipelineBridge
+
+/-! ## through `Normalize`: the clause about `Pipeline.load` with the loader's default options -/
+section PipelineNormalize
+open CV CV.Val
+
+theorem lookup_env_nnService (cfg : KVs) : Val.lookup "environment" (C11.nnService cfg) = Val.lookup "environment" cfg := by
+  unfold C11.nnService
+  split
+  · rfl
+  · split
+    · exact Val.lookup_insert_ne (by decide) _ _
+    · exact Val.lookup_insert_ne (by decide) _ _
+    · rfl
+
+theorem lookup_env_normService (clean : String → String) (env : C11.Env) (s : KVs) :
+    Val.lookup "environment" (C11.normService clean env s) =
+      (Val.lookup "environment" s).map fun e => (C11.resolve env true e).1 := by
+  unfold C11.normService C11.setDeps
+  split
+  · rw [C11.lookup_mapAt]; cases Val.lookup "environment" s <;> simp [C11.svcAttr]
+  · rw [Val.lookup_insert_ne (by decide), C11.lookup_mapAt]; cases Val.lookup "environment" s <;> simp [C11.svcAttr]
+
+/-- **normalize_env_clause.**  What `Normalize` (C11's model, the last stage of `Pipeline.load`) does to the `environment`
+    of service `n`: exactly `resolve(e, fn, keepEmpty = true)`; the network / depends_on / name parts leave it alone. -/
+theorem normalize_env_clause (clean : String → String) (env : C11.Env) (d d' svcs cfg : KVs) (n : String) (e : Val)
+    (h : C11.normalize clean env d = .ok d') (hs : Val.lookup "services" d = some (.map svcs))
+    (hn : Val.lookup n svcs = some (.map cfg)) (he : Val.lookup "environment" cfg = some e) :
+    ∃ svcs' cfg', Val.lookup "services" d' = some (.map svcs') ∧ Val.lookup n svcs' = some (.map cfg') ∧
+      Val.lookup "environment" cfg' = some (C11.resolve env true e).1 := by
+  unfold C11.normalize at h
+  split at h
+  · cases h
+  · split at h
+    · cases h
+    · split at h
+      · cases h
+      · simp only [C11.Out.ok.injEq] at h
+        subst h
+        have h1 : Val.lookup "services" (C11.normNetworks d) = some (.map (C11.mapVals C11.nnServiceV svcs)) := by
+          unfold C11.normNetworks
+          have hb : Val.lookup "services" (C11.nnServices d) = some (.map (C11.mapVals C11.nnServiceV svcs)) := by
+            unfold C11.nnServices
+            rw [C11.lookup_mapAt, hs]
+            simp [C11.nnTop]
+          cases C11.nnNetworks d with
+          | nil => exact hb
+          | cons x t => simp only []; rw [Val.lookup_insert_ne (by decide)]; exact hb
+        have h2 : Val.lookup "services" (C11.normServices clean env (C11.normNetworks d)) =
+            some (.map (C11.mapVals (C11.normServiceV clean env) (C11.mapVals C11.nnServiceV svcs))) := by
+          unfold C11.normServices
+          rw [C11.lookup_mapAt, h1]
+          simp [C11.nsTop]
+        refine ⟨C11.mapVals (C11.normServiceV clean env) (C11.mapVals C11.nnServiceV svcs), C11.normService clean env (C11.nnService cfg), ?_, ?_, ?_⟩
+        · unfold C11.normalizePure C11.setNames
+          rw [C11.lookup_mapAt, h2]
+          simp [C11.namesTop, C11.resourceNames]
+        · rw [C11.lookup_mapVals, C11.lookup_mapVals, hn]
+          rfl
+        · rw [lookup_env_normService, lookup_env_nnService, he]
+          rfl
+
+/-- **pipeline_load_env_final_seq.**  The clause about the *whole* composed function with normalization **on** (the
+    loader's default): for every configuration and list of documents on which `Pipeline.load` returns a model, every
+    service whose `environment` left the path stage in sequence form (elements tokenised at their first `=`) has, in the
+    returned model, exactly the tree of C16's `normalizeEnv (resolveSeqEnv y)` — the value `loadedEnv` decodes, which
+    `load_env_precedence` connects to `finalEnv`. -/
+theorem pipeline_load_env_final_seq (c : Pipeline.Cfg) (docs : List KVs) (out : KVs)
+    (hnorm : c.opts.skipNormalization = false) (h : Pipeline.load c docs = .ok out) :
+    ∃ dict, ∀ (svcs cfg : KVs) (items : List Item) (n : String), Val.lookup "services" dict = some (.map svcs) →
+        Val.lookup n svcs = some (.map cfg) → Val.lookup "environment" cfg = some (seqVal items) →
+        (∀ it ∈ items, '=' ∉ it.key) →
+        ∃ svcs' cfg', Val.lookup "services" out = some (.map svcs') ∧ Val.lookup n svcs' = some (.map cfg') ∧
+          Val.lookup "environment" cfg' =
+            some (seqVal ((items.map (resolveSeqItem (penvOf c.env))).map (normalizeItem (penvOf c.env)))) := by
+  unfold Pipeline.load at h
+  split at h
+  · cases h
+  · obtain ⟨m, hm, hfin⟩ := out_bind_ok h
+    unfold Pipeline.loadYamlModel at hm
+    obtain ⟨d0, hd0, hfm⟩ := out_bind_ok hm
+    unfold Pipeline.finishModel at hfm
+    obtain ⟨d1, hd1, h1⟩ := out_bind_ok hfm
+    obtain ⟨d2, hd2, h2⟩ := out_bind_ok h1
+    obtain ⟨d3, hd3, h3⟩ := out_bind_ok h2
+    unfold Pipeline.envStage at h3
+    split at h3
+    · rename_i kvs
+      simp only [Pipeline.Out.ok.injEq] at h3
+      subst h3
+      refine ⟨kvs, fun svcs cfg items n hs hn he hk => ?_⟩
+      obtain ⟨svcs1, hs1, hn1⟩ := pipeline_resolveEnvironment_service c.env kvs svcs cfg items n hs hn he
+      unfold Pipeline.finishLoad at hfin
+      simp only [hnorm] at hfin
+      split at hfin
+      · cases hfin
+      · split at hfin
+        · cases hfin
+        · simp only [Bool.false_eq_true, if_false] at hfin
+          cases hN : C11.normalize c.clean c.env (Val.insert "name" (.str c.projectName) (Pipeline.resolveEnvironment c.env kvs)) with
+          | ok d' =>
+            rw [hN] at hfin
+            simp only [Pipeline.ofC11, Pipeline.Out.ok.injEq] at hfin
+            subst hfin
+            have hs2 : Val.lookup "services" (Val.insert "name" (.str c.projectName) (Pipeline.resolveEnvironment c.env kvs)) = some (.map svcs1) := by
+              rw [Val.lookup_insert_ne (by decide)]; exact hs1
+            obtain ⟨svcs', cfg', h1', h2', h3'⟩ := normalize_env_clause c.clean c.env _ d' svcs1 _ n _ hN hs2 hn1
+              (Val.lookup_insert_self _ _ _)
+            exact ⟨svcs', cfg', h1', h2', by rw [h3', pipeline_two_stages_seq c.env items hk]⟩
+          | err e => rw [hN] at hfin; simp [Pipeline.ofC11] at hfin
+          | panic e => rw [hN] at hfin; simp [Pipeline.ofC11] at hfin
+    · cases h3
+
+end PipelineNormalize
 
 /-! ## non-vacuity -/
 namespace Example
